@@ -378,16 +378,20 @@ func (w *loopWorld) encDiscover(x *ints) {
 type loopSnap struct {
 	Replicas int
 	Assign   []map[uint64]int
+	Times    []map[uint64]uint64 // scrape counter per held target
 }
 
 func snapOf(n int, obs []SObs) loopSnap {
 	s := loopSnap{Replicas: n}
 	for _, o := range obs {
 		m := map[uint64]int{}
+		tm := map[uint64]uint64{}
 		for _, e := range o.Status {
 			m[e.Hash] = e.State
+			tm[e.Hash] = e.Times
 		}
 		s.Assign = append(s.Assign, m)
+		s.Times = append(s.Times, tm)
 	}
 	return s
 }
@@ -421,6 +425,10 @@ type loopRun struct {
 	FinalObs     []SObs
 	Err          error
 	Tags         map[string]bool
+	KeepViol     []string // "never unscraped" monitor: one line per op after which a held discovered target is held by nobody
+	KeepChecked  int      // (op, target) pairs the monitor looked at
+	HandViol     []string // hand-over rule on the sidecars' own counters (Loop.step_handover_f)
+	HandChecked  int      // removals the monitor looked at
 }
 
 // runLoopCase executes the case on real components and returns the line for the driver
@@ -457,7 +465,19 @@ func runLoopCase(c *WCase, work string) *loopRun {
 	encWorldObs(x, n, obs)
 	ops := &ints{}
 	nops := 0
-	emit := func(f func(o *ints)) bool {
+	prev := snapOf(n, obs)
+	heldIn := func(s loopSnap, h uint64) int {
+		for i, m := range s.Assign {
+			if _, ok := m[h]; ok {
+				return i
+			}
+		}
+		return -1
+	}
+	// kind != "": the operation is one of those of Loop.benign (cycle with any faults, scrape, restart,
+	// discovery change); Loop.step_keep_f / run_keep then say that a discovered target held by a running
+	// sidecar before is held by a running sidecar after (while the size is within max-shard)
+	emit := func(kind string, f func(o *ints)) bool {
 		f(ops)
 		n, obs, err := w.observe()
 		if err != nil {
@@ -466,6 +486,48 @@ func runLoopCase(c *WCase, work string) *loopRun {
 		}
 		encWorldObs(ops, n, obs)
 		run.FinalObs = obs
+		after := snapOf(n, obs)
+		if kind != "" && int32(prev.Replicas) <= c.Opt.MaxShard {
+			for _, h := range w.active {
+				if i := heldIn(prev, h); i >= 0 {
+					run.KeepChecked++
+					if heldIn(after, h) < 0 && len(run.KeepViol) < 4 {
+						run.KeepViol = append(run.KeepViol, fmt.Sprintf("op %d (%s): target %d, held by shard %d of %d before, is held by none of the %d running shards after",
+							nops, kind, h, i, prev.Replicas, after.Replicas))
+					}
+				}
+			}
+		}
+		if kind == "cycle" && int32(prev.Replicas) <= c.Opt.MaxShard {
+			for i := 0; i < len(prev.Assign) && i < len(after.Assign); i++ {
+				for _, h := range w.active {
+					if _, was := prev.Assign[i][h]; !was {
+						continue
+					}
+					if _, is := after.Assign[i][h]; is {
+						continue
+					}
+					run.HandChecked++
+					partner := -1
+					for j := 0; j < len(prev.Assign) && j < len(after.Assign); j++ {
+						if j == i {
+							continue
+						}
+						if _, wasj := prev.Assign[j][h]; !wasj || prev.Times[j][h] < 3 {
+							continue
+						}
+						if _, isj := after.Assign[j][h]; isj {
+							partner = j
+						}
+					}
+					if (prev.Times[i][h] < 3 || partner < 0) && len(run.HandViol) < 4 {
+						run.HandViol = append(run.HandViol, fmt.Sprintf("op %d (cycle): shard %d gave up target %d after %d scrapes; partner that had scraped it 3 times and still holds it: %d",
+							nops, i, h, prev.Times[i][h], partner))
+					}
+				}
+			}
+		}
+		prev = after
 		nops++
 		return true
 	}
@@ -481,7 +543,7 @@ func runLoopCase(c *WCase, work string) *loopRun {
 		lr := w.rigs[i]
 		lr.clock++
 		w.on(lr, func() { lr.rig.scrape(h, int(h%2), ok, sc, to) })
-		return emit(func(o *ints) {
+		return emit("scrape", func(o *ints) {
 			o.add(1, int64(i), int64(h))
 			o.bool(ok)
 			o.add(sc, to)
@@ -505,7 +567,7 @@ func runLoopCase(c *WCase, work string) *loopRun {
 		run.SnapBefore = append(run.SnapBefore, snapOf(nb, ob))
 		res := w.cycle(faults, scaleFail)
 		run.CycleOps = append(run.CycleOps, nops)
-		okk := emit(func(o *ints) {
+		okk := emit("cycle", func(o *ints) {
 			o.add(0, int64(len(faults)))
 			for _, f := range faults {
 				o.bool(f.NotReady)
@@ -561,7 +623,7 @@ func runLoopCase(c *WCase, work string) *loopRun {
 					run.Err = err
 					break
 				}
-				emit(func(o *ints) { o.add(2, int64(op.Shard)) })
+				emit("restart", func(o *ints) { o.add(2, int64(op.Shard)) })
 				run.Tags["restart"] = true
 			}
 		case "scale":
@@ -569,16 +631,16 @@ func runLoopCase(c *WCase, work string) *loopRun {
 				run.Err = err
 				break
 			}
-			emit(func(o *ints) { o.add(3, int64(op.N)) })
+			emit("", func(o *ints) { o.add(3, int64(op.N)) })
 			run.Tags["extScale"] = true
 		case "discover":
 			w.active = append([]uint64{}, op.Active...)
-			emit(func(o *ints) { o.add(4); w.encDiscover(o) })
+			emit("discover", func(o *ints) { o.add(4); w.encDiscover(o) })
 			run.Tags["discover"] = true
 		case "grow":
 			if t := w.truth[op.Hash]; t != nil {
 				t.Series, t.Total = op.Series, op.Total
-				emit(func(o *ints) { o.add(4); w.encDiscover(o) })
+				emit("discover", func(o *ints) { o.add(4); w.encDiscover(o) })
 				run.Tags["grow"] = true
 			}
 		case "update":
@@ -591,7 +653,7 @@ func runLoopCase(c *WCase, work string) *loopRun {
 					run.Err = err
 					break
 				}
-				emit(func(o *ints) {
+				emit("", func(o *ints) {
 					o.add(5, int64(op.Shard), int64(len(op.Req)))
 					for _, t := range op.Req {
 						o.add(int64(t.Hash), t.Series, t.Total, int64(t.State), int64(t.Job))
@@ -1043,6 +1105,25 @@ func runLoop(a Args) *Result {
 			res.count("tag_" + t)
 		}
 		res.Dist["cycles"] += len(flags)
+		// never unscraped: after every cycle (whatever its faults), scrape, restart and discovery change
+		res.Dist["keep_pairs_checked"] += run.KeepChecked
+		for _, kv := range run.KeepViol {
+			kind := "other"
+			if i := strings.Index(kv, "("); i >= 0 {
+				if j := strings.Index(kv[i:], ")"); j > 0 {
+					kind = kv[i+1 : i+j]
+				}
+			}
+			res.ImplViol = capViol(res.ImplViol, Violation{Property: prop, Clause: "neverUnscraped", Signature: prop + "/neverUnscraped/" + kind,
+				What: "a discovered target that a running sidecar held is held by no running sidecar after an operation that is not an outside intervention (Loop.run_keep): " + kv, Case: full}, 2)
+			break
+		}
+		res.Dist["handover_removals_checked"] += run.HandChecked
+		for _, hv := range run.HandViol {
+			res.ImplViol = capViol(res.ImplViol, Violation{Property: prop, Clause: "handoverRule", Signature: prop + "/handoverRule",
+				What: "a running sidecar stopped holding a discovered target in a cycle although it, or every other holder, had scraped it fewer than 3 times (Loop.step_handover_f): " + hv, Case: full}, 2)
+			break
+		}
 		// scale-up clause on every cycle
 		for k, f := range flags {
 			if len(f) == 5 && f[2] == '0' {
